@@ -34,6 +34,8 @@ class Scn:
     notes: str = ""
     compat: object = None        # fn(sit, out) -> list[(name, ok, detail)]: on a returning path the facts must entail compatibility
     waive: tuple = ()            # (substring of an identification context, reason): size identifications that need no guard
+    driver: object = None        # fn(it, model) -> value: a composition of repository calls evaluated in one space (instead of func/args)
+    strict_sizes: bool = False   # operands carry independent generic sizes: any further identification is a violation
 
 
 SCENARIOS: list[Scn] = []
